@@ -180,6 +180,12 @@ def o_irfset(a):
         fn = os.path.basename(getattr(s, attr).file_path)
         if ('_d%d_' % a['du']) not in fn:
             bad.append('irf_set.%s is %s for DU %d' % (attr, fn, a['du']))
+    # every member comes from the file of the requested name: same intent (weighting flavour included), same version
+    intent, version = a['name'].split(':')[1], int(a['name'].split(':')[2].lstrip('v'))
+    for attr in ('aeff', 'mrf', 'modf', 'edisp', 'psf', 'vign'):
+        fn = os.path.basename(getattr(s, attr).file_path)
+        if ('alpha075' in fn) != ('alpha075' in intent) or ('_%s_' % intent.split('_')[0]) not in fn or ('_v%03d.' % version) not in fn:
+            bad.append('irf_set.%s is %s for the name %s' % (attr, fn, a['name']))
     E = numpy.array(s.aeff.x)                       # the relation holds at the tabulated energies (between them three different splines interpolate)
     E = E[(E >= 1.02) & (E <= 11.98)]
     rel = float((numpy.abs(s.mrf(E) - s.aeff(E) * s.modf(E)) / numpy.abs(s.mrf(E))).max())
